@@ -468,8 +468,9 @@ class World(cpool.World):
     # -- E3 on both hops -------------------------------------------------------------------
     def audit(self, when):
         try:
-            self.audit_instances(when)
-            self.audit_workers(when)
+            with cpool.STRICT:
+                self.audit_instances(when)
+                self.audit_workers(when)
         except (AttributeError, KeyError, TypeError):
             self.probes['audit_unavailable'] += 1
 
